@@ -71,6 +71,8 @@ def fd_check(ctx, clause, key, f, x_parts, seed, signature=None, ndir=8, eps=1e-
     worst = 0.0
     wit = None
     judged = 0
+    with torch.no_grad():
+        base, _ = S(list(x_parts), w)
     for d_i in range(ndir):
         dirs = [torch.randn(p.shape, generator=g, dtype=torch.float64) for p in parts]
         if signature is not None:
@@ -97,6 +99,14 @@ def fd_check(ctx, clause, key, f, x_parts, seed, signature=None, ndir=8, eps=1e-
         fd4 = float((p4 - m4) / (eps / 2))
         if abs(fd4 - fd) > 2e-3 * scale:
             ctx.skip("finite differences at eps and eps/4 disagree: non-smooth neighbourhood")
+            continue
+        # a kink much closer to the point than eps/4 makes both central differences equal the *mean* of the two
+        # one-sided slopes; it shows as a forward/backward asymmetry that does not shrink with eps (curvature
+        # shrinks it by 4). Function values only: a wrong analytic gradient cannot hide behind this guard.
+        asym = abs(float((plus - base) / eps) - float((base - minus) / eps))
+        asym4 = abs(float((p4 - base) / (eps / 4)) - float((base - m4) / (eps / 4)))
+        if asym > 2e-3 * scale and asym4 > 0.5 * asym:
+            ctx.skip("one-sided differences disagree at eps and eps/4: kink next to the point")
             continue
         rel = abs(fd - an) / scale
         judged += 1
